@@ -102,4 +102,27 @@ KF_C04_NumericFieldRange(par, params, nplace) ==
   /\ nplace = Len(params) + 1 /\ Len(params) >= 2 /\ params[1].ty # "str"
   /\ par.k = "bool" /\ par.op = "AND" /\ Len(par.args) = 2
   /\ par.args[1].k = "cmp" /\ par.args[1].l.k = "param" /\ par.args[2].k = "cmp" /\ par.args[2].l.k = "param"
+
+\* ---- C12-negative-zero, C12-big-int-range-bound -------------------------------------------------------------
+\* -0.0 is encoded as -0 and decoded as the int 0 (strconv.Atoi accepts "-0"), so the re-encoding differs.
+\* An integer range bound travels through json.Unmarshal into `any` (float64) and toIntIfNecessary, so integers
+\* beyond 2^53 (16 digits and more) lose their low digits; list items and plain values use Atoi and are exact.
+NegZero(l) == l.op = "LIT" /\ l.ty = "float" /\ l.v = "-0"
+RECURSIVE HasNegZero(_)
+HasNegZero(T) ==
+  CASE T.op \in {"LIT","WILD","REGEXP"} -> NegZero(T)
+    [] T.op \in {"NOT","MUST","MUST_NOT","FUZZY","BOOST"} -> HasNegZero(T.l)
+    [] T.op = "RANGE" -> NegZero(T.lo) \/ NegZero(T.hi)
+    [] T.op = "IN" -> \E i \in DOMAIN T.items : NegZero(T.items[i])
+    [] T.op = "BAD" -> FALSE
+    [] OTHER -> HasNegZero(T.l) \/ HasNegZero(T.r)
+KF_C12_NegativeZero(tree) == HasNegZero(tree)
+RECURSIVE HasBigBound(_)
+BigInt(l) == l.op = "LIT" /\ l.ty = "int" /\ Len(l.v) >= 16
+HasBigBound(T) ==
+  CASE T.op \in {"LIT","WILD","REGEXP","BAD","IN"} -> FALSE
+    [] T.op \in {"NOT","MUST","MUST_NOT","FUZZY","BOOST"} -> HasBigBound(T.l)
+    [] T.op = "RANGE" -> BigInt(T.lo) \/ BigInt(T.hi)
+    [] OTHER -> HasBigBound(T.l) \/ HasBigBound(T.r)
+KF_C12_BigIntBound(tree) == HasBigBound(tree)
 ========================================================================
